@@ -515,7 +515,7 @@ pub fn run_count(prop: &str, tier: Tier) -> u64 {
         "C06" => (100_000, 2_000_000),
         "C19" => (1_000_000, 20_000_000),
         "C07" => (100_000, 2_000_000),
-        "C12" => (1_500_000, 30_000_000),
+        "C12" => (1_200_000, 24_000_000),
         "C03" => (800_000, 16_000_000),
         "C17" => (2_000_000, 40_000_000),
         _ => (1000, 10_000),
